@@ -33,7 +33,7 @@ type WriterPlan struct {
 
 // FSPlan describes the filesystem situation for one Save.
 type FSPlan struct {
-	Target string `json:"target"`           // "fresh" | "existing" | "isdir" | "noparent" | "parentfile" | "again[-mkparent|-deleted|-scribbled]" (the previous Save's path, after the world moved on)
+	Target string `json:"target"`           // "fresh" | "existing" | "isdir" | "isdir-empty" | "noparent" | "parentfile" | "again[-mkparent|-deleted|-scribbled]" (the previous Save's path, after the world moved on)
 	Inject string `json:"inject,omitempty"` // "" | "eacces" | "enospc" | "eio"
 	At     int    `json:"at,omitempty"`     // which intercepted call (1-based) gets the fault
 	Part   int    `json:"part,omitempty"`   // bytes that land before enospc/eio (percent of size)
